@@ -374,7 +374,7 @@ fn create_entity(w: &mut World, shard: &mut Shard, rng: &mut Rng) -> Option<Enti
         }
         EKind::Fungible | EKind::NonFungible => {
             let (owner_role, owner, updater) = gen_owner(rng, u, WRAP_OWNER_CREATE);
-            let pool: Vec<AccessRule> = (0..rng.range(2, 3)).map(|_| { let nest = *rng.pick(&[0usize, 1, 2, 3]); gen_rule(rng, u, nest, WRAP_ROLE_CREATE) }).collect();
+            let pool: Vec<AccessRule> = (0..rng.range(2, 3)).map(|_| { let nest = *rng.pick(&[0usize, 1, 2, 3, 4, 6]); gen_rule(rng, u, nest, WRAP_ROLE_CREATE) }).collect();
             let mut keys: Vec<&str> = RES_ROLES.to_vec();
             if kind == EKind::NonFungible {
                 keys.extend(NF_EXTRA_ROLES);
@@ -452,45 +452,34 @@ fn gen_probe(rng: &mut Rng, u: &Universe, e: &Entity) -> Probe {
         },
         _ => {
             let nf = e.kind == EKind::NonFungible;
-            match rng.below(24) {
-                0..=2 => {
-                    if nf {
-                        Probe::NfMint
-                    } else {
-                        Probe::Mint
+            let has_vault = e.vault.is_some();
+            loop {
+                let p = match rng.below(24) {
+                    0..=2 if nf => Probe::NfMint,
+                    0..=2 => Probe::Mint,
+                    3..=5 if nf => Probe::NfUpdateData,
+                    3..=4 => Probe::Burn,
+                    5 => Probe::MintDeposit,
+                    6..=8 if has_vault => Probe::WithdrawDeposit,
+                    9..=10 if has_vault => Probe::Freeze,
+                    11..=12 if has_vault => Probe::Recall,
+                    13..=14 => Probe::SetMeta,
+                    15 => Probe::LockMeta,
+                    16 => Probe::SetOwner { new: new_rule(rng) },
+                    17 if rng.chance(1, 4) => Probe::LockOwner,
+                    18..=23 => {
+                        let (module, key) = if rng.chance(1, 4) {
+                            (META, rng.pick(&META_ROLES).to_string())
+                        } else if nf && rng.chance(1, 5) {
+                            (MAIN, rng.pick(&NF_EXTRA_ROLES).to_string())
+                        } else {
+                            (MAIN, rng.pick(&RES_ROLES).to_string())
+                        };
+                        Probe::SetRole { module, key, new: new_rule(rng) }
                     }
-                }
-                3..=4 => {
-                    if nf {
-                        Probe::NfUpdateData
-                    } else {
-                        Probe::Burn
-                    }
-                }
-                5..=7 if e.vault.is_some() => Probe::WithdrawDeposit,
-                8..=9 => {
-                    if nf {
-                        Probe::NfMint
-                    } else {
-                        Probe::MintDeposit
-                    }
-                }
-                10..=11 if e.vault.is_some() => Probe::Freeze,
-                12..=13 if e.vault.is_some() => Probe::Recall,
-                14..=15 => Probe::SetMeta,
-                16 => Probe::LockMeta,
-                17 => Probe::SetOwner { new: new_rule(rng) },
-                18 if rng.chance(1, 4) => Probe::LockOwner,
-                _ => {
-                    let (module, key) = if rng.chance(1, 4) {
-                        (META, rng.pick(&META_ROLES).to_string())
-                    } else if nf && rng.chance(1, 5) {
-                        (MAIN, rng.pick(&NF_EXTRA_ROLES).to_string())
-                    } else {
-                        (MAIN, rng.pick(&RES_ROLES).to_string())
-                    };
-                    Probe::SetRole { module, key, new: new_rule(rng) }
-                }
+                    _ => continue,
+                };
+                return p;
             }
         }
     }
@@ -595,6 +584,10 @@ fn judge(shard: &mut Shard, u: &Universe, info: &CaseInfo, exp: &Expect, obs: &O
         shard.count(&format!("source:{}", info.steps[*i].2));
         shard.seen("c08:call_contexts", &format!("{:?}", info.steps[*i].1));
     }
+    let mut bounds: BTreeSet<&'static str> = BTreeSet::new();
+    for i in &decisive {
+        boundaries(&info.steps[*i].0, &info.zone.visible(&implicit(u, info.steps[*i].1)), &mut bounds);
+    }
     let verdict_bearing = match (exp, obs) {
         (Expect::Grey, _) => {
             shard.count("c08:not_judged:documentation_ambiguous(resource-level requirement vs virtual badge)");
@@ -613,6 +606,9 @@ fn judge(shard: &mut Shard, u: &Universe, info: &CaseInfo, exp: &Expect, obs: &O
     shard.count("c08:judged");
     for k in &kinds {
         shard.count(&format!("kind:{k}"));
+    }
+    for b in &bounds {
+        shard.count(&format!("boundary:{b}"));
     }
     shard.count(&format!("nest:{nest}"));
     shard.max("rule_nesting_depth", nest as u64);
@@ -673,6 +669,12 @@ fn needs_for(rng: &mut Rng, steps: &[(AccessRule, Ctx, &'static str)], u: &Unive
         all.n_count.extend(n.n_count);
         all.sigs.extend(n.sigs);
     }
+    all.f.sort();
+    all.f.dedup();
+    all.n_id.sort();
+    all.n_id.dedup();
+    all.n_count.sort();
+    all.n_count.dedup();
     Some(all)
 }
 
@@ -802,7 +804,7 @@ fn run_verify_parent(w: &mut World, shard: &mut Shard, rng: &mut Rng, coords: se
 }
 
 /// One world: a fresh ledger, the badge universe, `cases` entities each probed several times.
-fn run_world(shard: &mut Shard, seed: u64, shard_index: usize, world_no: u64, probes_cap: &mut u64, only_case: Option<u64>) {
+fn run_world(shard: &mut Shard, seed: u64, shard_index: usize, world_no: u64, probes_cap: &mut u64) {
     let Some(mut w) = build_world(shard) else {
         shard.count("c08:world_setup_failed");
         return;
@@ -815,7 +817,6 @@ fn run_world(shard: &mut Shard, seed: u64, shard_index: usize, world_no: u64, pr
         // every case has its own stream: (seed, shard, world, case) replays it on the same world prefix
         let mut rng = Rng::from_parts(seed, PHASE ^ ((shard_index as u64) << 20) ^ (world_no << 32), case);
         let rng = &mut rng;
-        let _ = only_case;
         if rng.chance(1, 6) {
             for p in 0..rng.range(2, 6) {
                 if *probes_cap == 0 {
@@ -876,6 +877,20 @@ fn spec(tier: Tier) -> Spec {
     .floor("source:owner-updater:owner", q(50, 1500))
     .floor("source:explicit-assertion", q(200, 5000))
     .explain("both directions are verdict-bearing: 'satisfied-rule-denied:<vehicle>' and 'unsatisfied-rule-authorized:<vehicle>'");
+    for b in [
+        "amount-of:largest-proof-equals-the-amount",
+        "amount-of:sum-of-proofs-reaches-the-amount-but-no-single-proof",
+        "amount-of:proofs-present-but-too-small",
+        "count-of:exactly-k-satisfied",
+        "count-of:k-minus-one-satisfied",
+        "any-of:two-entries-exactly-one-satisfied",
+        "all-of:all-but-one-satisfied",
+        "composite-any-of:exactly-one-child-satisfied",
+        "composite-all-of:all-but-one-child-satisfied",
+        "atom-satisfied-only-by-a-later-proof-of-the-zone",
+    ] {
+        s = s.floor(&format!("boundary:{b}"), q(40, 1200));
+    }
     for k in ["require:fungible-resource", "require:non-fungible-resource", "require:non-fungible-id", "require:signature", "require:global-caller", "require:package-of-direct-caller", "amount-of:fungible", "amount-of:non-fungible", "count-of", "all-of", "any-of", "composite-any-of", "composite-all-of", "allow-all", "deny-all"] {
         s = s.floor(&format!("kind:{k}"), q(100, 3000));
     }
@@ -917,14 +932,12 @@ pub fn run(args: &Args) -> i32 {
         let mut cap = per_shard;
         let mut world_no = 0;
         while cap > 0 && !shard.time_up() {
-            run_world(shard, seed, i, world_no, &mut cap, None);
+            run_world(shard, seed, i, world_no, &mut cap);
             world_no += 1;
         }
     });
-    let a = report.counter("c08:agree_authorized") + report.counter("violations:C08:satisfied-rule-denied");
     let ea = report.counter("c08:expected_authorized");
     let eu = report.counter("c08:expected_unauthorized");
-    let _ = a;
     let total = (ea + eu).max(1);
     let ok = ea * 100 / total >= 30 && eu * 100 / total >= 30;
     report.counters.insert("c08:both_verdicts_at_least_30_percent".into(), ok as u64);
@@ -942,9 +955,10 @@ fn replay(args: &Args, path: &std::path::Path, report: Report) -> i32 {
     let seed = doc["seed"].as_i64().map(|s| s as u64).unwrap_or(args.seed);
     let mut shard = Shard::new(shard_index as usize, "C08", args.tier, std::time::Instant::now() + Duration::from_secs(600));
     let mut cap = u64::MAX;
-    run_world(&mut shard, seed, shard_index as usize, world_no, &mut cap, Some(case));
-    let hits: Vec<&Violation> = shard.violations.iter().filter(|v| v.detail["replay"]["case"].as_u64() == Some(case) && v.detail["replay"]["probe"].as_u64() == Some(probe)).collect();
-    println!("replayed world {world_no} of shard {shard_index} (seed {seed}): {} violation(s) in the world, {} at case {case} probe {probe}", shard.violations.len(), hits.len());
+    run_world(&mut shard, seed, shard_index as usize, world_no, &mut cap);
+    let hits: Vec<&Violation> = shard.violations.iter().filter(|v| v.prop == "C08" && v.detail["replay"]["case"].as_u64() == Some(case) && v.detail["replay"]["probe"].as_u64() == Some(probe)).collect();
+    let in_world = shard.violations.iter().filter(|v| v.prop == "C08").count();
+    println!("replayed world {world_no} of shard {shard_index} (seed {seed}): {in_world} C08 violation(s) in the world, {} at case {case} probe {probe}", hits.len());
     for v in &hits {
         println!("STILL-VIOLATES {} {}", v.signature, serde_json::to_string_pretty(&v.detail).unwrap());
     }
